@@ -1,7 +1,7 @@
 (* Corr/C10.v — histories of update / delete / add_relation / reopen on a file database: after
    every step the file's tables, the open object's counters, the .bak file and the outcome
    class against the machine of Model/Machine.v. *)
-From GV Require Export Corr.Import Model.Machine.
+From GV Require Export Corr.Import Model.GtfSpec Model.Machine.
 Open Scope Z_scope.
 
 Record stepobs := mkStepObs {
@@ -15,7 +15,8 @@ Record stepobs := mkStepObs {
   so_iter_ids : list str }.               (* ids yielded by all_features() *)
 
 Inductive case :=
-| CHist (init : list row)            (* features the database was created from (create_db, ids from ID) *)
+| CHist (kind : dbkind)              (* GFF3- or GTF-dialect database *)
+        (init : list row)            (* features the database was created from (create_db, default id_spec) *)
         (ops : list op) (created : result tables) (obs : list stepobs).
 
 Definition IDK : str := [73;68]%N.
@@ -24,10 +25,16 @@ Definition id_clean (s : str) : bool := negb (existsb (fun c => N.eqb c 9 || N.e
 Definition out_eqb (a b : result unit) : bool :=
   match a, b with Ok _, Ok _ => true | Err e, Err e' => err_eqb e e' | _, _ => false end.
 
-Definition bak_matches (vals_as_sets : bool) (m : option ist) (o : option tables) : bool :=
+(* GFF3 databases: rows in rowid order.  GTF databases: the derived transcripts/genes are inserted in the
+   order of an SQL query whose ties (several transcripts of one gene) are unordered, so rows are compared
+   as a set keyed by id *)
+Definition disk_matches (kind : dbkind) (st : ist) (t : tables) : bool :=
+  match kind with KGff => st_matches true st t | KGtf => st_matches_set st t end.
+
+Definition bak_matches (kind : dbkind) (m : option ist) (o : option tables) : bool :=
   match m, o with
   | None, None => true
-  | Some st, Some t => st_matches vals_as_sets st t
+  | Some st, Some t => disk_matches kind st t
   | _, _ => false
   end.
 
@@ -45,19 +52,22 @@ Definition count_matches (rows : list row) (x : option str * Z) : bool :=
                      end)) =? snd x).
 
 (* the object's own view (look-ups, counts, iteration) agrees with the file's content *)
-Definition api_matches (d : ist) (o : stepobs) : bool :=
+Definition api_matches (kind : dbkind) (d : ist) (o : stepobs) : bool :=
   forallb (lookup_matches (s_rows d)) (so_lookups o) && forallb (count_matches (s_rows d)) (so_counts o)
-  && lstr_eqb (map r_id (s_rows d)) (so_iter_ids o).
+  && match kind with
+     | KGff => lstr_eqb (map r_id (s_rows d)) (so_iter_ids o)
+     | KGtf => lstr_eqb (sort_strs (map r_id (s_rows d))) (sort_strs (so_iter_ids o))
+     end.
 
-Definition step_matches (ms : mstate * result unit) (o : stepobs) : bool :=
-  st_matches true (m_disk (fst ms)) (so_tables o) && counters_seteq (m_mem (fst ms)) (so_mem o)
-  && bak_matches true (m_bak (fst ms)) (so_bak o) && out_eqb (snd ms) (so_out o)
-  && api_matches (m_disk (fst ms)) o.
+Definition step_matches (kind : dbkind) (ms : mstate * result unit) (o : stepobs) : bool :=
+  disk_matches kind (m_disk (fst ms)) (so_tables o) && counters_seteq (m_mem (fst ms)) (so_mem o)
+  && bak_matches kind (m_bak (fst ms)) (so_bak o) && out_eqb (snd ms) (so_out o)
+  && api_matches kind (m_disk (fst ms)) o.
 
-Fixpoint all_match (ms : list (mstate * result unit)) (os : list stepobs) : bool :=
+Fixpoint all_match (kind : dbkind) (ms : list (mstate * result unit)) (os : list stepobs) : bool :=
   match ms, os with
   | [], [] => true
-  | m :: ms', o :: os' => step_matches m o && all_match ms' os'
+  | m :: ms', o :: os' => step_matches kind m o && all_match kind ms' os'
   | _, _ => false
   end.
 
@@ -65,16 +75,19 @@ Definition ids_clean_state (s : mstate) : bool := forallb (fun r => id_clean (r_
 
 Definition verdict (c : case) : Z :=
   match c with
-  | CHist init ops created obs =>
+  | CHist kind init ops created obs =>
     match init with [] => V_OUT | _ =>
-    match import_gff call_table SCreateUnique [] (SList [KAttr IDK]) init empty_st with
+    match (match kind with
+           | KGff => import_gff call_table SCreateUnique [] (SList [KAttr IDK]) init empty_st
+           | KGtf => import_gtf call_table gtf_default SCreateUnique [] default_gtf_spec init empty_st
+           end) with
     | Err _ => V_OUT
     | Ok d0 =>
-      if negb (res_matches false (Ok d0) created) then V_BAD else
-      let tr := trace call_table (opened d0) ops in
+      if negb (match created with Ok t => match kind with KGff => st_matches false d0 t | KGtf => st_matches_set d0 t end | Err _ => false end) then V_BAD else
+      let tr := trace call_table kind (opened d0) ops in
       (* ids with tab/newline make _update_relations fail in ways outside the property's domain *)
       if negb (forallb (fun ms => ids_clean_state (fst ms)) tr) then V_OUT else
-      if all_match tr obs then V_OK else V_BAD
+      if all_match kind tr obs then V_OK else V_BAD
     end
     end
   end.
